@@ -14,7 +14,10 @@ Record conn := {
   k_client_open : bool;      (* the client has not disconnected *)
   k_session : bool;          (* the session coroutine is still running (server side open) *)
   k_replies : nat;           (* replies written to this client, handshake reply included *)
-  k_hello : bool             (* the client has sent its handshake line *)
+  k_hello : bool;            (* the client has sent its handshake line *)
+  k_waiting : bool           (* the session is inside a command whose method waits (until-closed on a
+                                pool nobody closes): it reads no input and cannot notice that its
+                                client has gone *)
 }.
 
 Record srv := {
@@ -37,7 +40,10 @@ Inductive label :=
                                 waits for the handshake line while other clients come and go *)
 | LHello (c : nat)           (* client c (connected by LOpen) sends its handshake line *)
 | LSend (c : nat)            (* client c sends one command line *)
+| LSendWait (c : nat)        (* client c sends a command whose method waits (until-closed; the pool
+                                is never closed in this model): no reply, the session stays inside it *)
 | LLeave (c : nat)           (* client c disconnects (clean close, 'exit' command or EOF) *)
+| LAbort (c : nat)           (* client c vanishes abruptly (reply left unread, connection torn down) *)
 | LStop.                     (* the serving task is cancelled *)
 
 Definition init (k : transport) : srv :=
@@ -81,7 +87,7 @@ Definition step (s : srv) (l : label) : srv :=
   | LConnect =>
       if v_listening s
       then set_conns s (v_conns s ++ [{| k_client_open := true; k_session := true;
-                                        k_replies := 1; k_hello := true |}])
+                                        k_replies := 1; k_hello := true; k_waiting := false |}])
       else {| v_kind := v_kind s; v_started := v_started s; v_listening := v_listening s;
               v_stopreq := v_stopreq s; v_done := v_done s; v_sockfile := v_sockfile s;
               v_conns := v_conns s; v_refused := S (v_refused s) |}
@@ -90,7 +96,7 @@ Definition step (s : srv) (l : label) : srv :=
          client is not answered.  It counts as a connection that came and went. *)
       if v_listening s
       then set_conns s (v_conns s ++ [{| k_client_open := false; k_session := false;
-                                        k_replies := 0; k_hello := false |}])
+                                        k_replies := 0; k_hello := false; k_waiting := false |}])
       else {| v_kind := v_kind s; v_started := v_started s; v_listening := v_listening s;
               v_stopreq := v_stopreq s; v_done := v_done s; v_sockfile := v_sockfile s;
               v_conns := v_conns s; v_refused := S (v_refused s) |}
@@ -98,7 +104,7 @@ Definition step (s : srv) (l : label) : srv :=
       (* the connection is accepted; the session coroutine waits in client_handshake() *)
       if v_listening s
       then set_conns s (v_conns s ++ [{| k_client_open := true; k_session := true;
-                                        k_replies := 0; k_hello := false |}])
+                                        k_replies := 0; k_hello := false; k_waiting := false |}])
       else {| v_kind := v_kind s; v_started := v_started s; v_listening := v_listening s;
               v_stopreq := v_stopreq s; v_done := v_done s; v_sockfile := v_sockfile s;
               v_conns := v_conns s; v_refused := S (v_refused s) |}
@@ -110,7 +116,7 @@ Definition step (s : srv) (l : label) : srv :=
             (* the handshake is answered with the pool's name; listen() then checks is_serving()
                and ends the session at once if the server was stopped meanwhile *)
             let k' := {| k_client_open := true; k_session := v_listening s;
-                         k_replies := S (k_replies k); k_hello := true |} in
+                         k_replies := S (k_replies k); k_hello := true; k_waiting := false |} in
             settle (set_conns s (upd (v_conns s) c k'))
           else s
       | None => s
@@ -118,13 +124,23 @@ Definition step (s : srv) (l : label) : srv :=
   | LSend c =>
       match nth_error (v_conns s) c with
       | Some k =>
-          if k_client_open k && k_session k && k_hello k
+          if k_client_open k && k_session k && k_hello k && negb (k_waiting k)
           then
             (* the line is answered; the listen loop then re-checks is_serving() and ends the
                session (closing the connection) if the server was stopped meanwhile *)
             let k' := {| k_client_open := true; k_session := v_listening s;
-                         k_replies := S (k_replies k); k_hello := true |} in
+                         k_replies := S (k_replies k); k_hello := true; k_waiting := false |} in
             settle (set_conns s (upd (v_conns s) c k'))
+          else s
+      | None => s
+      end
+  | LSendWait c =>
+      match nth_error (v_conns s) c with
+      | Some k =>
+          if k_client_open k && k_session k && k_hello k && negb (k_waiting k)
+          then set_conns s (upd (v_conns s) c
+                 {| k_client_open := true; k_session := true; k_replies := k_replies k;
+                    k_hello := true; k_waiting := true |})
           else s
       | None => s
       end
@@ -133,8 +149,27 @@ Definition step (s : srv) (l : label) : srv :=
       | Some k =>
           if k_client_open k
           then settle (set_conns s (upd (v_conns s) c
-                         {| k_client_open := false; k_session := false;
-                            k_replies := k_replies k; k_hello := k_hello k |}))
+                         {| k_client_open := false;
+                            (* a session inside a waiting command does not notice: it stays *)
+                            k_session := k_waiting k;
+                            k_replies := k_replies k; k_hello := k_hello k;
+                            k_waiting := k_waiting k |}))
+          else s
+      | None => s
+      end
+  | LAbort c =>
+      match nth_error (v_conns s) c with
+      | Some k =>
+          if k_client_open k
+          then
+            (* TCP: the reset tears the server-side transport down whatever the session does.
+               Unix: a session inside a waiting command neither reads nor writes and does not
+               notice - as for a clean disconnect *)
+            let w := match v_kind s with TCP => false | Unix => k_waiting k end in
+            settle (set_conns s (upd (v_conns s) c
+                         {| k_client_open := false; k_session := w;
+                            k_replies := k_replies k; k_hello := k_hello k;
+                            k_waiting := w |}))
           else s
       | None => s
       end
